@@ -663,6 +663,13 @@ double tol_len(const Geo &g, const Pk &p, int wraps) {
 // returns "" (agree), "ambiguous" or a failure text
 std::string cmp_packet(const Geo &g, const Field &f, const Pk &p, const PRes &R,
                        const PRes &T, size_t ip) {
+  for (int a = 0; a < 3; ++a)
+    if (!std::isfinite(R.upos[a]) || !std::isfinite(T.upos[a]))
+      return fmt("packet %zu: final position component %d is %g (undivided) / "
+                 "%g (layout)", ip, a, R.upos[a], T.upos[a]);
+  if (!std::isfinite(R.taurem) || !std::isfinite(T.taurem))
+    return fmt("packet %zu: remaining optical depth %g (undivided) / %g "
+               "(layout)", ip, R.taurem, T.taurem);
   const int W = std::max(R.wraps, T.wraps);
   const double tl = tol_len(g, p, W);
   const double km = kappa_max(f, p);
